@@ -1,6 +1,6 @@
 //! Scenario generator: fan-in, fan-out, pipelines, request/reply, await chains, late awaits of
 //! finished processes, processes that finish with unread mail, failing processes, await races.
-use super::{Act, Scenario, Src};
+use super::{Act, CLASS_B, Scenario, Src};
 use qverif::Rng;
 use std::collections::HashMap;
 
@@ -14,7 +14,7 @@ pub struct RegInfo {
 pub struct B {
     pub scripts: Vec<Vec<Act>>,
     pub regs: Vec<Vec<RegInfo>>,
-    seqs: HashMap<(usize, usize), u64>,
+    seqs: HashMap<(usize, usize, u64), u64>,
 }
 
 impl B {
@@ -35,11 +35,15 @@ impl B {
         (f, self.regs[parent].len() - 1)
     }
     pub fn send(&mut self, s: usize, reg: usize) {
+        self.send_tag(s, reg, s as u64)
+    }
+    /// a send with an explicit tag; sequence numbers count per (sender, receiver, tag)
+    pub fn send_tag(&mut self, s: usize, reg: usize, tag: u64) {
         let target = self.regs[s][reg].script;
-        let q = self.seqs.entry((s, target)).or_insert(0);
+        let q = self.seqs.entry((s, target, tag)).or_insert(0);
         let seq = *q;
         *q += 1;
-        self.scripts[s].push(Act::Send { reg, tag: s as u64, seq });
+        self.scripts[s].push(Act::Send { reg, tag, seq });
     }
     pub fn recv(&mut self, s: usize) {
         self.scripts[s].push(Act::Select(vec![Src::Recv]));
@@ -94,6 +98,21 @@ pub fn send_counts(sc: &Scenario) -> HashMap<(usize, usize), u64> {
     m
 }
 
+/// static count of sends per (sender script, receiver script, tag)
+pub fn send_tag_counts(sc: &Scenario) -> HashMap<(usize, usize, u64), u64> {
+    let regs = reg_scripts(sc);
+    let mut m = HashMap::new();
+    for (s, script) in sc.scripts.iter().enumerate() {
+        for a in script {
+            if let Act::Send { reg, tag, .. } = a {
+                let r = regs[s].get(*reg).copied().unwrap_or(0);
+                *m.entry((s, r, *tag)).or_insert(0) += 1;
+            }
+        }
+    }
+    m
+}
+
 /// The front end rejects a send to a process that never receives and an await of a `me`
 /// reference; the generator must not produce them.
 pub fn well_typed(sc: &Scenario) -> bool {
@@ -101,7 +120,7 @@ pub fn well_typed(sc: &Scenario) -> bool {
     let receives: Vec<bool> = sc
         .scripts
         .iter()
-        .map(|s| s.iter().any(|a| matches!(a, Act::Select(srcs) if srcs.iter().any(|x| matches!(x, Src::Recv | Src::RecvTag(_))))))
+        .map(|s| s.iter().any(|a| matches!(a, Act::Select(srcs) if srcs.iter().any(|x| matches!(x, Src::Recv | Src::RecvTag(_) | Src::RecvCls(_))))))
         .collect();
     for (s, script) in sc.scripts.iter().enumerate() {
         for a in script {
@@ -132,7 +151,7 @@ pub fn well_typed(sc: &Scenario) -> bool {
 }
 
 pub const KINDS: &[&str] = &[
-    "fan_in", "fan_out", "pipeline", "request_reply", "await_chain", "late_await", "unread_mail", "fail", "await_race", "stale_answer", "stale_failure", "selective", "mix",
+    "fan_in", "fan_out", "pipeline", "request_reply", "await_chain", "late_await", "unread_mail", "fail", "await_race", "stale_answer", "stale_failure", "selective", "typed_selective", "mix",
 ];
 
 pub fn generate(r: &mut Rng, kind: &str) -> Scenario {
@@ -149,6 +168,7 @@ pub fn generate(r: &mut Rng, kind: &str) -> Scenario {
         "stale_answer" => stale_answer(r),
         "stale_failure" => stale_failure(r),
         "selective" => selective(r),
+        "typed_selective" => typed_selective(r),
         _ => mix(r),
     }
 }
@@ -799,6 +819,104 @@ pub fn selective(r: &mut Rng) -> Scenario {
         }
     }
     b.finish("selective", true, false)
+}
+
+/// Which single-source receives take a message sequence (given by its tags) completely, each one
+/// a definite message whatever has arrived so far: a receive takes the FIRST message it accepts
+/// among those still queued, and with one sender the queue is a prefix of the rest of the
+/// sequence, so the first accepted message of the prefix (if any) is the first of the whole rest.
+fn consume_plan(r: &mut Rng, seq_tags: &[u64]) -> Vec<Src> {
+    let mut remaining: Vec<u64> = seq_tags.to_vec();
+    let mut plan = vec![];
+    let front_first = if r.chance(1, 2) { 0 } else { r.usize(5) };
+    while !remaining.is_empty() {
+        // often: a FILTER whose message type excludes the oldest queued message
+        let other_type = remaining.iter().position(|x| (*x >= CLASS_B) != (remaining[0] >= CLASS_B));
+        let pick_other = plan.len() >= front_first && other_type.is_some() && r.chance(1, 2);
+        let idx = if pick_other {
+            other_type.unwrap()
+        } else if plan.len() < front_first {
+            0
+        } else {
+            r.usize(remaining.len())
+        };
+        let t = remaining[idx];
+        let cls = t >= CLASS_B;
+        let first_tag = remaining.iter().position(|x| *x == t).unwrap();
+        let first_cls = remaining.iter().position(|x| (*x >= CLASS_B) == cls).unwrap();
+        let (src, take) = match if pick_other { r.usize(3) } else { r.usize(5) } {
+            0 | 1 => (Src::RecvTag(t), first_tag),
+            2 | 3 => (Src::RecvCls(cls), first_cls),
+            _ => (Src::Recv, 0),
+        };
+        plan.push(src);
+        remaining.remove(take);
+    }
+    plan
+}
+
+/// CONFLUENT selective receives: one sender per mailbox, messages of two TYPES and several tags,
+/// 3–10 per mailbox (the mailbox's ring buffer starts with capacity 4), taken OUT OF ARRIVAL ORDER
+/// by single-source selects — filters on the tag (older messages of the other type are passed
+/// over without calling the filter, older ones of the same type are turned down by it), typed
+/// receives of one message type, plain receives of both — after some were taken from the front.
+pub fn typed_selective(r: &mut Rng) -> Scenario {
+    let mut b = B::new();
+    let pairs = 1 + r.usize(2);
+    let mut kids = vec![];
+    let mut main_receives = false;
+    let mut late: Vec<(usize, Vec<u64>)> = vec![];
+    for _ in 0..pairs {
+        let m = 3 + r.usize(8);
+        let na = 1 + r.usize(3) as u64;
+        let nb = r.usize(3) as u64;
+        let tags: Vec<u64> = (0..na).map(|i| 1 + i).chain((0..nb).map(|i| CLASS_B + i)).collect();
+        let seq_tags: Vec<u64> = (0..m).map(|_| tags[r.usize(tags.len())]).collect();
+        let plan = consume_plan(r, &seq_tags);
+        if !main_receives && r.chance(1, 2) {
+            // the child sends, main receives
+            main_receives = true;
+            let (f, reg) = b.spawn(0, &[0]);
+            for t in &seq_tags {
+                b.send_tag(f, 1, *t);
+            }
+            // sometimes main first awaits the sender: everything is queued when it starts receiving
+            let await_first = r.chance(1, 2);
+            if await_first {
+                b.await1(0, reg);
+            }
+            for src in &plan {
+                b.select(0, vec![src.clone()]);
+            }
+            if !await_first {
+                kids.push(reg);
+            }
+        } else {
+            // main sends, the child receives
+            let (f, reg) = b.spawn(0, &[]);
+            for src in &plan {
+                b.select(f, vec![src.clone()]);
+            }
+            if r.chance(1, 3) {
+                late.push((reg, seq_tags));
+            } else {
+                for t in &seq_tags {
+                    b.send_tag(0, reg, *t);
+                }
+            }
+            kids.push(reg);
+        }
+    }
+    for (reg, seq_tags) in late {
+        for t in &seq_tags {
+            b.send_tag(0, reg, *t);
+        }
+    }
+    r.shuffle(&mut kids);
+    for reg in kids {
+        b.await1(0, reg);
+    }
+    b.finish("typed_selective", true, true)
 }
 
 /// Static check of the confluence class: every select has one source, no timeouts, every mailbox
